@@ -186,14 +186,16 @@ func frame(id uint32) []byte {
 
 // waitShutdown waits until the reader goroutine ran its shutdown and every
 // detached handler finished its close protocol.
-func (r *rig) waitShutdown(t *tracker) bool {
-	if !r.rec.Wait(waitBound, func() bool { return t.procDead[r.inst] }) {
+func (r *rig) waitShutdown(t *tracker) bool { return waitShutdownOf(r.rec, t, r.ep, r.inst) }
+
+func waitShutdownOf(rec *hlib.Recorder, t *tracker, ep net.EndPoint, inst int) bool {
+	if !rec.Wait(waitBound, func() bool { return t.procDead[inst] }) {
 		return false
 	}
 	// barrier: the detach loop runs under handlersMutex; an (invalid) RemoveHandler
 	// can only get the mutex after it
-	r.ep.RemoveHandler(-1)
-	return r.rec.Wait(waitBound, func() bool { return len(t.pending[r.inst]) == 0 })
+	ep.RemoveHandler(-1)
+	return rec.Wait(waitBound, func() bool { return len(t.pending[inst]) == 0 })
 }
 
 // ---------------------------------------------------------------------------
